@@ -168,7 +168,12 @@ def run_case(case):
         # ---- public API -------------------------------------------------------------------------
         rd = st.open_file("h")
         cls = ft.OrderedHashReader if case["ordered"] else ft.HashReader
-        r = cls(rd, length=length, startoffset=so)
+        # the table runs to the end of the file, so the default length (None = "to EOF") must behave
+        # exactly like the explicit one; alternate between the two ways of opening
+        if case["seed"] % 2:
+            r = cls(rd, startoffset=so)
+        else:
+            r = cls(rd, length=length, startoffset=so)
         if custom is not None:
             r.hashfn = custom
         api = {}
